@@ -446,6 +446,15 @@ func writeEvidence(verif, prop, tier string, seed int, w *World, rr *RunResult, 
 					for _, r := range c.Requires {
 						add("top-level precondition assumed unless a verified caller discharges it: " + name + " requires " + r.Src)
 					}
+					for _, r := range c.Assumes {
+						add("system invariant assumed (never checked at call sites): " + name + " assumes " + r.Src)
+					}
+					for _, st := range c.Stable {
+						add("abstracted callees assumed not to write " + st.Src + " (in " + name + ")")
+					}
+					if len(c.StableTypes) > 0 {
+						add("abstracted callees assumed not to write any field of " + strings.Join(c.StableTypes, ", ") + " (in " + name + ")")
+					}
 					if c.AbstractCalls {
 						add("callees without contract abstracted as unknown calls (result arbitrary, heap havocked, ghost state kept) in " + name)
 					}
